@@ -22,6 +22,7 @@ CACHE = os.path.join(VERIF, ".cache")
 PY = "/venv/bin/python"
 TLA_CP = "/opt/veriftools/tla/tla2tools.jar:/opt/veriftools/tla/CommunityModules-deps.jar"
 NONE = -999999
+UNIT = 10000
 
 
 class Machinery(Exception):
@@ -491,6 +492,7 @@ def normalize_model_rec(r):
     r.setdefault("opt", {})
     r.setdefault("faults", {})
     r.setdefault("expect_solved", False)
+    r.setdefault("k_none", False)
     r.setdefault("proutes", [])
     r.setdefault("pweights", [])
     # TLC cannot read JSON null / floats: make sure none slipped through
